@@ -68,6 +68,10 @@ def fixed_pool():
         ('P("==1.0.0")', lambda: P("==1.0.0")),
         ('P(">=1.0,<=1.0")', lambda: P(">=1.0,<=1.0")),
         ("Range(1.0..1.0 incl)", lambda: RangeSpecifier(min=V("1.0"), max=V("1"), include_min=True, include_max=True)),
+        ('P(">=1.2,<1.3.0")', lambda: P(">=1.2,<1.3.0")),
+        ('P(">=1.2.0,<1.3")', lambda: P(">=1.2.0,<1.3")),
+        ('P(">=1.2") & P("<1.3.0")', lambda: P(">=1.2") & P("<1.3.0")),
+        ('P(">=1.2.0") & P("<1.3")', lambda: P(">=1.2.0") & P("<1.3")),
         ('P("~=1.2")', lambda: P("~=1.2")),
         ('P(">=1.2,<2")', lambda: P(">=1.2,<2")),
         ('P(">=1.2,<2.0")', lambda: P(">=1.2,<2.0")),
@@ -143,6 +147,25 @@ def _canon_ranges(s):
 _VERSION_FAMILY = (RangeSpecifier, UnionSpecifier, ArbitrarySpecifier)
 
 
+def _final_probes(x, y):
+    out: dict[str, None] = {"0": None, "1": None, "99": None}
+    try:
+        bs = bounds(x, y)
+    except ModelError:
+        return []
+    for b in bs:
+        rel = list(b.release)
+        ep = f"{b.epoch}!" if b.epoch else ""
+        variants = [rel, rel + [1], rel[:-1] + [rel[-1] + 1], rel[:-1] + [rel[-1] + 3]]
+        if len(rel) > 1:
+            variants += [rel[:-1], rel[:-2] + [rel[-2] + 1], rel[:-2] + [rel[-2] + 1, 0], rel[:-2] + [rel[-2] + 3]]
+        if len(rel) > 2 and rel[-1] == 0:
+            variants += [rel[:-2] + [rel[-2] + 1, 5], rel[:-3] + [rel[-3] + 1]]
+        for r in variants:
+            out[ep + ".".join(map(str, r))] = None
+    return list(out)
+
+
 def _compatible_operand(a, x, y):
     """Operands are taken from the family of x and y: version specifiers are never combined with
     string (generic) specifiers by any caller, and doing so is a TypeError by design."""
@@ -205,6 +228,24 @@ def check_pool(acc, kind, case, pool, triples=True, shard=0, nshards=1):
                     acc.oracle_evaluations += 1
                     if m1 != m2:
                         acc.fail(kind, f"spec:not-interchangeable:{opn}:{type(x).__name__}x{type(y).__name__}", case, expected="same meaning", got={"a": rk, "x": ri, "y": rj, "a op x": str(m1)[:200], "a op y": str(m2)[:200]})
+            # ... and as the left operand of membership: equal objects admit the same final releases (candidates:
+            # final releases around every bound, as in C04; pre/post/dev candidates are outside the interval reading)
+            if isinstance(x, (RangeSpecifier, UnionSpecifier, AnySpecifier, EmptySpecifier)) and isinstance(y, (RangeSpecifier, UnionSpecifier, AnySpecifier, EmptySpecifier)):
+                from .c06 import _known_obj
+
+                if harness.KNOWN_ENABLED and (_known_obj(x) or _known_obj(y)):
+                    acc.excluded_known["S4a"] += 1
+                else:
+                    for v in _final_probes(x, y):
+                        acc.oracle_evaluations += 1
+                        try:
+                            got = ((v in x), x.contains(v), (v in y), y.contains(v))
+                        except Exception as e:  # noqa: BLE001
+                            acc.fail(kind, f"spec:membership-raises:{type(e).__name__}", case, expected="a truth value", got={"x": ri, "y": rj, "v": v})
+                            break
+                        if len(set(got)) != 1:
+                            acc.fail(kind, f"spec:equal-but-membership-differs:{type(x).__name__}x{type(y).__name__}", case, expected="v in x == v in y", got={"x": ri, "y": rj, "v": v, "in x / x.contains / in y / y.contains": got})
+                            break
             # equal => same meaning themselves
             if meaning(x) != meaning(y) and not (x.is_any() and y.is_any()):
                 acc.fail(kind, f"spec:equal-but-different-meaning:{type(x).__name__}x{type(y).__name__}", case, expected="same set", got={"x": ri, "y": rj})
